@@ -235,6 +235,34 @@ def run_map_case(case):
                 elif src == "iterpairs":
                     m.update(iter([(kk, exprs[ee]) for kk, ee in pairs]))
                     model.update(dict(pairs))
+                elif src == "boom":
+                    # the argument fails after k pairs: the exception comes out;
+                    # the mapping holds the consumed prefix (dict.update) or is
+                    # unchanged
+                    nk = op.get("bk", 0) % (len(pairs) + 1)
+
+                    class Boom(Exception):
+                        pass
+
+                    def gen():
+                        for kk, ee in pairs[:nk]:
+                            yield (kk, exprs[ee])
+                        raise Boom()
+
+                    res.tag("map:failed-update")
+                    try:
+                        m.update(gen())
+                        res.fail("C16:refine:map.failed-update-exception-swallowed", where)
+                    except Boom:
+                        pass
+                    trial = dict(model)
+                    trial.update(dict(pairs[:nk]))
+                    real = {kk: _ei(exprs, v) for kk, v in m.items()}
+                    if real == trial:
+                        model.update(dict(pairs[:nk]))
+                    elif real != model:
+                        res.fail("C16:refine:map.failed-update-contents", "%s: %r, before %r, prefix %r" % (where, real, model, pairs[:nk]))
+                        return res
                 elif src == "other":
                     ob = op.get("o", 0) % N_BI
                     m.update(bis[ob].symbolic_expressions)
@@ -315,7 +343,7 @@ def map_strategy():
         ops[f] = progs.op("m", f=st.just(f), b=b, k=k, e=e)
     ops["pop"] = progs.op("m", f=st.just("pop"), b=b, k=k, d=st.booleans())
     ops["eq"] = progs.op("m", f=st.just("eq"), b=b, o=b)
-    ops["update"] = progs.op("m", f=st.just("update"), b=b, o=b, items=items, src=st.sampled_from(["dict", "pairs", "iterpairs", "other", "self"]))
+    ops["update"] = progs.op("m", f=st.just("update"), b=b, o=b, items=items, src=st.sampled_from(["dict", "pairs", "iterpairs", "other", "self", "boom"]), bk=st.integers(0, 4))
     ops["assign"] = progs.op("m", f=st.just("assign"), b=b, o=b, items=items, src=st.sampled_from(["dict", "other", "copy"]))
     ops["assign-self"] = progs.op("m", f=st.just("assign-self"), b=b)
     init = st.lists(st.lists(st.tuples(k, e).map(list), max_size=4), min_size=N_BI, max_size=N_BI)
